@@ -233,7 +233,7 @@ fn supervise(id: &str, tier: &str) -> i32 {
     let mut confirmed = vec![];
     let mut dropped = 0usize;
     for r in reported {
-        if let (Some(rp), true) = (d.replay, r.replay.get("ops").is_some() || r.replay.get("system").is_some() || r.replay.get("pair_index").is_some()) {
+        if let (Some(rp), true) = (d.replay, r.replay.get("ops").is_some() || r.replay.get("system").is_some() || r.replay.get("pair_index").is_some() || r.replay.get("config_index").is_some()) {
             vharness::explore::install_quiet_panic_hook();
             match rp(&r.replay) {
                 Ok(Some(_)) => confirmed.push(r),
